@@ -184,6 +184,7 @@ class Engine(ExprMixin, CallMixin, BuiltinMixin, ApplyMixin, StmtMixin, _Base):
         env["old"] = SV(None, "pyfunc", py=("old", snap))
         post_st = St(st.guards, st.facts, env, st.heap, st.eff)
         spec_fr.old_state = entry
+        spec_fr.exit_env = st.env
         for cl in c.ensures:
             g = self.eval_clause(cl, post_st, spec_fr)
             self.emit("post", f"post.{cl.name}", list(post_st.guards) + list(post_st.facts), g, fr, fi.lineno,
